@@ -482,6 +482,8 @@ func (e *Env) RParenSync() {
 	}
 	specsBase := map[string]token.Pos{}
 	flagBase := map[string]map[string]bool{}
+	undoReach := c.InstallReaching(fd) // `first := blocks[0]` is blocks[0]
+	defer undoReach()
 	isGenDecl := func(x ast.Expr) bool { _, n := namedOf(info.TypeOf(x)); return n == "GenDecl" }
 	record := func(l ast.Expr, p token.Pos) {
 		se, ok := l.(*ast.SelectorExpr)
